@@ -9,6 +9,7 @@
 import Cobweb.Proofs.Kill
 import Cobweb.Theorems.C07
 import Cobweb.Theorems.C06
+import Cobweb.Theorems.C03
 
 namespace Cobweb.C16
 
@@ -145,5 +146,32 @@ def exSt : St :=
     trkEnt := { reacting := true, curSys := 4, curSrc := 2 } }
 
 example : readLocal exSt 0 = some (2, 9) := local_of_source exSt 0 2 9 rfl rfl rfl rfl
+
+/-- **The run of an entity world reactor names the entity that caused it, in every execution**: when a reaction command of
+    kind `entReact src rt` (or an entity event aimed at `src`) reaches its run, the entity-reaction tracker is reacting, its
+    source is `src` and its system is the command's target — so `readLocal` (what `EntityLocal` returns) is the data attached
+    to `src` (`run_reads_attached_data`). No hypothesis on what else is pending (finding F1 is repaired). -/
+theorem run_names_its_entity (p : Prog) (h : Hist) {s : St} (hr : Reach p h ({} : St) s) {sys idx src : Nat} {rt : RType}
+    {rest : List Frame} (hst : s.stack = Frame.runnerLookup sys (.entReact src rt) idx :: rest) :
+    let s1 := setupK { s with stack := rest, storage := upd s.storage sys (some false), counter := s.counter + 1 } (.entReact src rt) sys
+    s1.trkEnt.reacting = true ∧ s1.trkEnt.curSrc = src ∧ s1.trkEnt.curSys = sys := by
+  intro s1
+  obtain ⟨hc, hf⟩ := C03.C03_all p h hr hst
+  simp only [claimedOwn, Bool.and_eq_true, beq_iff_eq] at hc
+  have hre : s1.trkEnt.reacting = true := hf.2.2.1
+  refine ⟨hre, hc.1, ?_⟩
+  -- the tracker was idle before `setup`, so `start` did claim an entry: the current system is the command's
+  obtain ⟨_, _, f⟩ := all_reach p h ctl_default once_default flag_default hr
+  have htop := f.top; rw [hst] at htop
+  have hi : Fl s = (false, false, false, false) := htop.1
+  simp only [Fl, Prod.mk.injEq] at hi
+  show (s.trkEnt.start sys src rt).curSys = sys
+  by_cases hm : (sys, src, rt) ∈ s.trkEnt.prepared
+  · exact (TrkEnt.start_claims_own s.trkEnt sys src rt hm).2.1
+  · exfalso
+    have : s1.trkEnt = s.trkEnt := by
+      show s.trkEnt.start sys src rt = s.trkEnt
+      exact TrkEnt.start_none s.trkEnt sys src rt hm
+    rw [this, hi.2.2.1] at hre; cases hre
 
 end Cobweb.C16
